@@ -456,6 +456,8 @@ type concCase struct {
 	child    bool   // run in a re-exec'd child process (the case may crash the process)
 	ofail    string // "" | "err" | "panic": a lifecycle element placed AFTER the async stage whose Open fails
 	rep      int    // materialise the SAME stream value this many times (>= 1)
+	cerr     bool   // pipe: the consumer returns an error (instead of nil) after its reads
+	lcx      int    // extra (no-op) lifecycle elements added on top of the source provider (WithAdditionalLifecycle)
 	bare     bool   // the source is a bare provider function (NewSimpleStream(f), no lifecycle elements: no Open, no Close)
 	slowret  int    // ms the parked Emit call needs to return after its ctx was cancelled
 	lastfull bool   // the last materialisation runs without early stop / failure / cancel / park: it must deliver everything
@@ -516,6 +518,10 @@ func parseConcCase(text string) (*concCase, error) {
 			cc.child = v == "1"
 		case "ofail":
 			cc.ofail = v
+		case "cerr":
+			cc.cerr = v == "1"
+		case "lcx":
+			cc.lcx = atoi()
 		case "bare":
 			cc.bare = v == "1"
 		case "slowret":
@@ -699,6 +705,10 @@ func (r *concRun) baseStream() stream.Stream[int] {
 		r.src.opened.Store(true)
 		src = stream.NewSimpleStream[int](r.src.Emit)
 	}
+	for i := 0; i < cc.lcx; i++ {
+		// elements on top of the provider's own: the provider must still be closed only after its reader has left it
+		src = src.WithAdditionalLifecycle(stream.NewLifecycle(func(ctx context.Context) error { return nil }, func() {}))
+	}
 	cmap := func(s stream.Stream[int]) stream.Stream[int] {
 		return stream.MapWithErrAndCtx(s, r.mapper, stream.WithConcurrentMapOption(cc.c))
 	}
@@ -781,6 +791,9 @@ func (r *concRun) build() func() error {
 					for i := 0; i < 4000 && !r.src.parked.Load(); i++ {
 						time.Sleep(50 * time.Microsecond)
 					}
+				}
+				if cc.cerr {
+					return cc.reads, errConcUser
 				}
 				return cc.reads, nil
 			})
